@@ -336,10 +336,15 @@ def k_session(run, case):
     n = int(rng.integers(4, 10) if rng.random() < .4 else rng.integers(6, 50))
     ref = gen.traj_arrays(rng, n, pos_cls=["walk", "circle", "utm"][rng.integers(3)], rot_cls=["smooth", "uniform"][rng.integers(2)],
                           stamp_cls=["small", "epoch"][rng.integers(2)])
+    if case.get("long"):
+        # a geo-referenced log of more than a thousand poses (map coordinates, 5 cm steps)
+        n = int(rng.integers(1100, 1600))
+        ref = gen.traj_arrays(rng, n, pos_cls="walk", rot_cls="smooth", stamp_cls="small")
+        ref["p"] = np.array([4.5e5, 5.4e6, 300.0]) + np.cumsum(rng.normal(size=(n, 3)) * 0.05, axis=0)
     for k in range(1, n):
         if ref["t"][k] <= ref["t"][k - 1]:
             ref["t"][k] = ref["t"][k - 1] + 1e-3
-    if n >= 4 and rng.random() < .15:
+    if n >= 4 and rng.random() < .15 and not case.get("long"):
         # a late / out-of-order message: the first pose does not carry the smallest stamp
         k = int(rng.integers(1, n))
         ref["t"][0], ref["t"][k] = ref["t"][k], ref["t"][0]
@@ -352,11 +357,11 @@ def k_session(run, case):
         # objects that were already looked at (printed, plotted, evaluated once)
         t_est.distances, t_est.path_length, t_ref.distances, str(t_est)
     results, history = [], []
-    n_eval = int(rng.integers(2, 5))
+    n_eval = int(rng.integers(2, 5)) if not case.get("long") else 2
     for j in range(n_eval):
         rel = ["translation_part", "rotation_angle_deg", "full_transformation", "point_distance", "rotation_part"][rng.integers(5)]
         plane = [None, "xy", "xz", "yz"][rng.integers(4)] if j > 0 else None
-        du = ["f", "f", "m", "d"][rng.integers(4)]
+        du = ["f", "f", "m", "d"][rng.integers(4)] if not case.get("long") else "f"
         path = float(np.sum(np.linalg.norm(np.diff(est["p"], axis=0), axis=1)))
         dl = float(rng.integers(1, max(2, n // 3))) if du == "f" else \
             path / n * float(rng.uniform(0.7, 3)) if du == "m" else float(rng.uniform(5, 60))
@@ -450,6 +455,8 @@ def main(run):
     run.extra["ordered_unit_pairs_enumerated"] = 100
     for i in run.mine({"quick": 250, "thorough": 4000}[run.tier]):
         k_session(run, run.case("session", i))
+    for i in run.mine({"quick": 4, "thorough": 40}[run.tier]):
+        k_session(run, run.case("session", 10**6 + i, long=True))
     for i in run.mine({"quick": 350, "thorough": 5000}[run.tier]):
         KINDS["archive_ape"](run, run.case("archive_ape", i))
     for i in run.mine({"quick": 350, "thorough": 5000}[run.tier]):
